@@ -264,8 +264,52 @@ func runC20(c *Check) {
 			c.Bad("C20-R4", "GetNextBatch ⟂ append-in-blob-order", fn, p.InstrPos(an.In), "the appended transaction is not the blob at the ascending range index: "+trunc(e.String(), 120), nil)
 		}
 	}
+	c.Doc("C20-R5", "EO: every mutation of the carry-over list is followed by Save before the method returns.")
+	ruleCarryOverDurable(c, p)
 	c.MinInstances("C20-R1", 1)
 	c.MinInstances("C20-R2", 1)
 	c.MinInstances("C20-R3", 1)
 	c.MinInstances("C20-R4", 4)
+}
+
+// ruleCarryOverDurable (C20-R5): in every method of the persistent carry-over queue, every path
+// from a mutation of the in-memory list to a return passes Save (the queue survives a restart
+// exactly as it is in memory).
+func ruleCarryOverDurable(c *Check, p *Prog) {
+	rule := "C20-R5"
+	n := 0
+	for _, fn := range p.Funcs {
+		pk := fnPkg(fn)
+		if pk == nil || pk.Pkg.Path() != basedPkg || fn.Parent() != nil || !strings.Contains(fn.String(), "PersistentPendingTxs).") {
+			continue
+		}
+		if fn.Name() == "Load" || fn.Name() == "Save" {
+			continue
+		}
+		g := BuildECFG(p, fn, ExpandOpts{MaxDepth: 0})
+		mut := g.Select(func(x *Node) bool {
+			st, ok := x.In.(*ssa.Store)
+			if !ok {
+				return false
+			}
+			at := TermOf(st.Addr, x.Ctx)
+			// pt.list = …  or  pt.list[i] = …
+			if at.Op == "field" && at.Name == "list" {
+				return true
+			}
+			return at.Op == "index" && at.Args[0].Op == "field" && at.Args[0].Name == "list"
+		})
+		if len(mut) == 0 {
+			continue
+		}
+		c.NoteGraph(g)
+		n++
+		isSave := func(x *Node) bool { return strings.HasSuffix(CallName(x), "PersistentPendingTxs).Save") }
+		path := g.PathAvoiding(mut, g.AnyExit(), isSave)
+		c.Decide(rule, fnShort(fn)+" ⟂ mutation→Save", fnName(fn), p.InstrPos(mut[0].In), "every return after a change of the carry-over list is preceded by Save",
+			"the carry-over list can be changed in memory and the method return without persisting it: after a restart the stale list is reloaded and already-released transactions are released again (or queued ones are lost)", g, path)
+	}
+	if n < 2 {
+		c.Unk(rule, "carry-over-queue-mutators", "", "", fmt.Sprintf("anchor lost: %d mutating methods of the carry-over queue (2 confirmed by hand)", n))
+	}
 }
